@@ -1,12 +1,12 @@
 #!/bin/bash
-# tools/confirm_seed.sh <property ID> <k> <source dir with patch<k>.diff demo<k>_test.go meta<k>.json> [origin]
+# tools/confirm_seed.sh <property ID> <k> <source dir with patch<k>.diff demo<k>_test.go meta<k>.json> [origin] [number to store it under]
 # Confirms a seeded change independently (scratch copy of /repo HEAD outside /repo and /verif):
 #   1. the patch applies and builds, 2. the repository's whole test suite still passes with it,
 #   3. the demonstration test fails with the patch and 4. passes without it.
 # Then runs the quick tier of the property's own check and of every check of the touched package family against the
 # patched copy and stores everything under /verif/seeded/<ID>-<k>/ (patch.diff, demo_test.go, meta.json).
 set -u
-ID="$1"; K="$2"; SRC="$3"; ORIGIN="${4:-sub-agent given only the property text}"
+ID="$1"; K="$2"; SRC="$3"; ORIGIN="${4:-sub-agent given only the property text}"; OUTK="${5:-$K}"
 HERE="$(cd "$(dirname "$0")/.." && pwd)"
 export GOFLAGS=-mod=mod GOPROXY=off GOSUMDB=off GOTOOLCHAIN=local
 PATCH="$SRC/patch$K.diff"; DEMO="$SRC/demo${K}_test.go"; META="$SRC/meta$K.json"
@@ -49,7 +49,7 @@ for pkg in $(grep '^+++ b/' "$PATCH" | sed 's#+++ b/\([a-z]*\)/.*#\1#' | sort -u
   esac
 done
 FAM="$(echo $FAM | tr ' ' '\n' | awk '!s[$0]++' | tr '\n' ' ')"
-OUTDIR="$HERE/seeded/$ID-$K"; mkdir -p "$OUTDIR"
+OUTDIR="$HERE/seeded/$ID-$OUTK"; mkdir -p "$OUTDIR"
 cp "$PATCH" "$OUTDIR/patch.diff"; cp "$DEMO" "$OUTDIR/demo_test.go"
 RES="[]"
 for id in $FAM; do
@@ -62,7 +62,7 @@ for id in $FAM; do
   RES="$(echo "$RES" | jq --arg id "$id" --argjson rc $rc --arg secs "$secs" --arg classes "$classes" '. + [{check:$id, exit:$rc, seconds:($secs|tonumber), violation_classes:($classes|split(",")|map(select(.!="")))}]')"
 done
 AGENT="{}"; [[ -f "$META" ]] && AGENT="$(jq -c . "$META" 2>/dev/null || echo '{}')"
-jq -n --arg id "$ID-$K" --arg prop "$ID" --arg origin "$ORIGIN" --arg dir "$DIR" --arg tn "$TESTNAME" --arg race "$RACE" --arg head "$(git -C /repo rev-parse --short HEAD)" \
+jq -n --arg id "$ID-$OUTK" --arg prop "$ID" --arg origin "$ORIGIN" --arg dir "$DIR" --arg tn "$TESTNAME" --arg race "$RACE" --arg head "$(git -C /repo rev-parse --short HEAD)" \
   --argjson agent "$AGENT" --argjson res "$RES" '{
   id:$id, property:$prop, origin:$origin,
   summary:($agent.summary // ""), needs_to_manifest:($agent.needs // ""),
@@ -71,4 +71,4 @@ jq -n --arg id "$ID-$K" --arg prop "$ID" --arg origin "$ORIGIN" --arg dir "$DIR"
   checks_run_quick_tier:$res,
   caught_by:[$res[]|select(.exit==1)|.check]
 }' > "$OUTDIR/meta.json"
-echo "$ID-$K: confirmed; caught by: $(jq -c .caught_by "$OUTDIR/meta.json")"
+echo "$ID-$OUTK (source $K): confirmed; caught by: $(jq -c .caught_by "$OUTDIR/meta.json")"
